@@ -181,10 +181,20 @@ def genTabFamily (tagp : String) (tier : String) (seed : Nat) (both : Bool) : Ar
   for i in [0:n] do
     let ((s, kind), rng') := genTabStmt i rng
     rng := rng'
+    -- C19 only: a nested statement whose components carry private properties (open finding:
+    -- IG Core's flat text of the nested statement omits the private values)
+    let (s, kind, kfExtra) :=
+      if both && i % 10 = 9 then
+        let (inner, _) := genC16Stmt false ⟨UInt64.ofNat (seed * 31 + i)⟩
+        let hasPriv := !(privTextsOf (denoteLinked inner)).isEmpty
+        ((Stmt.mk [.ann { sym := Sym.A } true (.leaf (str "regulator")), .ann { sym := Sym.I } true (.leaf (str "acts")), .nested { sym := Sym.Cac } inner]),
+         "private-inside-nested", if hasPriv && kfC16 inner = "" then "C19-core-text-omits-private-properties-of-nested-statement" else if kfC16 inner ≠ "" then "skip" else "")
+      else (s, kind, "")
+    if kfExtra = "skip" then continue
     if rowBound s > 256 then continue
     let (id, rng'') := pickA idPoolTab rng
     rng := rng''
-    let kf := if supported s then "" else "C02-regex-shape"
+    let kf := if kfExtra ≠ "" then kfExtra else if supported s then "" else "C02-regex-shape"
     let mk := fun (o : Tab.Opts) (sfx : String) =>
       let c := tabCase s!"{tagp}-{i}{sfx}" kind s id o
       { c with note := Json.mkObj [("kf", (kf : Json))] }
